@@ -27,6 +27,19 @@ func TestC05B(t *testing.T) {
 			rec.Inconclusive("initial connect failed")
 			return nil
 		}
+		if p.Judge == "order" {
+			// the symmetric clause across reconnects and stalls of the application, with a scripted gateway that follows
+			// the rules (bursts, repetitions of the last request, disconnect requests between bursts): delivered once, in
+			// the gateway's order, acknowledged as the receiver model says
+			rec.Class("symmetric clause: bursts, stalls and reconnects (C17 plans)")
+			if classifyC17(p, br.Result, rec) {
+				rec.NonTrivial(common.HashJSON(p))
+			}
+			if f := oracleC17(p, br.Result); f != nil {
+				return f
+			}
+			return oracleC04(p, br.Result, true)
+		}
 		if classifyC05(p, br.Result, rec) {
 			rec.NonTrivial(common.HashJSON(p))
 		}
@@ -42,6 +55,13 @@ func TestC05B(t *testing.T) {
 		}
 		return nil
 	}
-	common.Drive(t, rec, func(rt *rapid.T) *Plan { return withEdgeChannels(rt, genPlanC05(rt)) }, run)
+	common.Drive(t, rec, func(rt *rapid.T) *Plan {
+		if rapid.IntRange(0, 3).Draw(rt, "order-plan") == 0 {
+			p := genPlanC17(rt, false)
+			p.Judge = "order"
+			return withEdgeChannels(rt, p)
+		}
+		return withEdgeChannels(rt, genPlanC05(rt))
+	}, run)
 	completed = true
 }
